@@ -166,7 +166,7 @@ impl Texture {
                     header.width as usize,
                     header.height as usize * header.depth as usize,
                     decode_bc1,
-                );
+                )?;
             }
             TextureFormat::BC3 => {
                 dst = Texture::decode(
@@ -174,7 +174,7 @@ impl Texture {
                     header.width as usize,
                     header.height as usize * header.depth as usize,
                     decode_bc3,
-                );
+                )?;
             }
             TextureFormat::BC5 => {
                 dst = Texture::decode(
@@ -182,7 +182,7 @@ impl Texture {
                     header.width as usize,
                     header.height as usize * header.depth as usize,
                     decode_bc5,
-                );
+                )?;
             }
         }
 
@@ -199,17 +199,25 @@ impl Texture {
         })
     }
 
-    fn decode(src: &[u8], width: usize, height: usize, decode_func: DecodeFunction) -> Vec<u8> {
-        let mut image: Vec<u32> = vec![0; width * height];
-        decode_func(src, width, height, &mut image).unwrap();
+    fn decode(
+        src: &[u8],
+        width: usize,
+        height: usize,
+        decode_func: DecodeFunction,
+    ) -> Option<Vec<u8>> {
+        // Check that the payload covers the image before allocating for it
+        let mut image: Vec<u32> = vec![0; width.checked_mul(height)?];
+        decode_func(src, width, height, &mut image).ok()?;
 
-        image
-            .iter()
-            .flat_map(|x| {
-                let v = x.to_le_bytes();
-                [v[2], v[1], v[0], v[3]]
-            })
-            .collect::<Vec<u8>>()
+        Some(
+            image
+                .iter()
+                .flat_map(|x| {
+                    let v = x.to_le_bytes();
+                    [v[2], v[1], v[0], v[3]]
+                })
+                .collect::<Vec<u8>>(),
+        )
     }
 }
 
